@@ -12,9 +12,21 @@ func c02Gen(r *rand.Rand, i int) *genReq {
 	method := methods[i%len(methods)]
 	o := genOpts{method: method, nBiases: r.Intn(4), minCrit: 2, maxCrit: 5, minAlt: 2, maxAlt: 6, negValues: r.Intn(4) == 0}
 	if method == "choquetIntegral" {
-		o.maxCrit = 4
+		o.maxCrit = 6 // up to 7 criteria after an adding bias (size thresholds in the power-set handling)
 	}
 	g := genRequest(r, o)
+	if method == "choquetIntegral" && r.Intn(3) == 0 {
+		// values of one alternative that are nearly (not exactly) tied: their order must not be left to map iteration
+		for _, a := range g.M["knownAlternatives"].([]interface{}) {
+			cv := a.(M)["criteria"].(M)
+			base := quarter(r, 0, 12)
+			for k := range cv {
+				if r.Intn(2) == 0 {
+					cv[k] = base + float64(r.Intn(16))*1e-6
+				}
+			}
+		}
+	}
 	if r.Intn(10) == 0 {
 		// some requests that are rejected: the verdict has to be repeatable too
 		switch r.Intn(3) {
